@@ -22,8 +22,21 @@ structure Tree.Inv [Bounded O] (t : Tree O) : Prop where
   maxC : 2 ≤ t.maxC
 
 theorem Tree.WF_iff [Bounded O] (t : Tree O) :
-    t.WF = true ↔ wfNode t.maxC t.height t.root = true ∧ t.size = t.abs.length := by
-  simp [Tree.WF]
+    t.WF = true ↔ wfNode t.maxC t.height t.root = true ∧ t.size = t.abs.length ∧
+      (t.root.leaf = false → t.root.entries ≠ []) := by
+  simp only [Tree.WF, Bool.and_eq_true, beq_iff_eq, Bool.or_eq_true, Bool.not_eq_true',
+    List.isEmpty_eq_false_iff, and_assoc]
+  constructor
+  · rintro ⟨a, b, c⟩
+    refine ⟨a, b, fun hl => ?_⟩
+    rcases c with c | c
+    · rw [hl] at c; cases c
+    · exact c
+  · rintro ⟨a, b, c⟩
+    refine ⟨a, b, ?_⟩
+    cases hl : t.root.leaf with
+    | true => exact Or.inl rfl
+    | false => exact Or.inr (c hl)
 
 /-- **C11_init** — `NewTree` is well-formed and empty (Size 0, Depth 1). -/
 theorem C11_init [Bounded O] (minC maxC : Nat) (h1 : 1 ≤ minC) (h2 : 2 ≤ maxC) :
@@ -31,7 +44,7 @@ theorem C11_init [Bounded O] (minC maxC : Nat) (h1 : 1 ≤ minC) (h2 : 2 ≤ max
       (newTree minC maxC : Tree O).size = 0 ∧ (newTree minC maxC : Tree O).depth = 1 := by
   refine ⟨⟨?_, by simp [newTree, Node.leaf], h1, h2⟩, by simp [newTree, Tree.abs, Node.objs_mk], rfl, rfl⟩
   rw [Tree.WF_iff]
-  refine ⟨?_, by simp [newTree, Tree.abs, Node.objs_mk]⟩
+  refine ⟨?_, by simp [newTree, Tree.abs, Node.objs_mk], by simp [newTree, Node.leaf]⟩
   simp only [newTree]; rw [wfNode_mk]; simp
 
 /-- the decidable "share a point" test is the existence of a common point -/
@@ -81,7 +94,7 @@ theorem C11_insert [Bounded O] {H : Heur} (hH : H.InRange) (t : Tree O) (hI : t.
       t'.minC = t.minC ∧ t'.maxC = t.maxC := by
   obtain ⟨hwf, hr2, hmin, hmax⟩ := hI
   rw [Tree.WF_iff] at hwf
-  obtain ⟨hw, hsz⟩ := hwf
+  obtain ⟨hw, hsz, _⟩ := hwf
   have hlev := wfNode_level hw
   obtain ⟨t1, h1, h2, h3, h4, h5, h6, h7, h8, h9⟩ :=
     insertEntry_spec hH t hmax hw 1 (.obj (Bounded.bounds o) o) (Nat.le_refl _) hlev.2.1 ⟨rfl, rfl⟩
@@ -100,7 +113,7 @@ theorem C11_insert [Bounded O] {H : Heur} (hH : H.InRange) (t : Tree O) (hI : t.
     hp, by simp [h5], h4, h3⟩
   · simp only [Tree.insert, h1, bind, Except.bind, pure, Except.pure]
   · rw [Tree.WF_iff]
-    refine ⟨h2, ?_⟩
+    refine ⟨h2, ?_, fun _ => h7⟩
     have := hp.length_eq
     simp only [List.length_cons] at this
     simp only [Tree.abs] at this hsz ⊢
@@ -130,7 +143,7 @@ theorem C11_delete_present [DecidableEq O] [Bounded O] {H : Heur} (hH : H.InRang
       t'.size + 1 = t.size ∧ t'.minC = t.minC ∧ t'.maxC = t.maxC := by
   obtain ⟨hwf, hr2, hmin, hmax⟩ := hI
   rw [Tree.WF_iff] at hwf
-  obtain ⟨hw, hsz⟩ := hwf
+  obtain ⟨hw, hsz, _⟩ := hwf
   have hlev := wfNode_level hw
   obtain ⟨r, del, d1, d2, d3, d4, d5⟩ :=
     (delIn_spec t.minC t.maxC hmin o t.root 0 t.height hw).2 (by rw [scope_zero]; exact ho)
@@ -172,9 +185,11 @@ theorem C11_delete_present [DecidableEq O] [Bounded O] {H : Heur} (hH : H.InRang
     ?_, ?_, g4, g3⟩
   · simp only [Tree.delete, d1, g1, c1, bind, Except.bind, pure, Except.pure]
   · rw [Tree.WF_iff]
-    refine ⟨c2, ?_⟩
-    simp only [Tree.abs] at hlen hsz ⊢
-    rw [c3, g5, hsz]; omega
+    refine ⟨c2, ?_, fun hl => ?_⟩
+    · simp only [Tree.abs] at hlen hsz ⊢
+      rw [c3, g5, hsz]; omega
+    · have := c4 hl
+      intro h0; simp only at h0 this; rw [h0] at this; simp at this
   · simpa [Tree.abs, c3] using hperm'
   · simp only [Tree.abs] at hlen hsz ⊢
     rw [g5, hsz]; omega
@@ -232,7 +247,7 @@ theorem C11_reachable [DecidableEq O] [Bounded O] {H : Heur} (hH : H.InRange) (m
   obtain ⟨t, g1, g2, g3, g4, g5⟩ := C11_run hH ops (newTree minC maxC) hI [] (by rw [habs])
   have hwf := (Tree.WF_iff t).mp g2.wf
   refine ⟨t, g1, g2, g2.wf, g3, ?_, ?_⟩
-  · rw [hwf.2]; exact g3.length_eq
+  · rw [hwf.2.1]; exact g3.length_eq
   · have : t.maxC = maxC := g5
     rw [← this]; exact hwf.1
 
